@@ -613,7 +613,10 @@ class OrConstraint(AbstractConstraint):
                     ],
                 ]
                 yield Constraint(
-                    varname, ConstraintType.one_of, True, list(set(constraints))
+                    varname,
+                    ConstraintType.one_of,
+                    True,
+                    list(dict.fromkeys(constraints)),
                 )
 
     def _constraint_from_list(
